@@ -153,5 +153,5 @@ def replay(chk, drv, path):
 MANIFEST = {
     "technique": "TLA+ specs AmpPath, CacheURL, Rendezvous: TLC checks contract invariants (Decode(Encode(d,pad)) = d for all paddings; publisher path kept under /c[/s]/host/; success only for 200 within the limit) and enumerates cases with expected results; Go drivers replay them through amp.EncodePath/DecodePath/CacheURL (external) and httpRendezvous/ampCacheRendezvous.Exchange over an in-memory RoundTripper (in-package overlay)",
     "text": "The path codec, the AMP domain-prefix algorithm (literally the five steps of the AMP text on character positions, with punycode/SHA-256/base32 uninterpreted and supplied by the libraries), the cache URL construction and the request/result contract of an exchange are explicit TLA+ operators; TLC evaluates them on every point of the bounded partitions (path shapes, leading characters of 1-4 UTF-8 bytes x hyphens x dots, label lengths around 63, URL component classes, front x cache x broker x status x size around the limit x body shape) and the real code is executed on each and compared with TLC's expectation. Exhaustive over the contract's partitions; bound to code by differential replay. The endpoint equivalence clause is decided by the Broker replay.",
-    "note": "Bounded: paddings of <= 5 tokens, leads of <= 4 characters, publisher paths of <= 3 segments, six broker URL classes; concrete spellings seeded. Don't-care: which error; 4-byte characters before position 4 where character and UTF-16 positions disagree; URLs without a faithful cache form; 200 with Location on the AMP path.",
+    "note": "Bounded: paddings of <= 5 tokens, leads of <= 5 characters (quick 3), publisher paths of <= 3 segments, six broker URL classes; concrete spellings seeded. Don't-care: which error; 4-byte characters before position 4 where character and UTF-16 positions disagree; URLs without a faithful cache form; 200 with Location on the AMP path.",
 }
